@@ -69,6 +69,65 @@ pub struct ExecOut {
     pub probe_calls: u64,
 }
 
+/// description of the case being executed (for reports written from inside an execution)
+pub static CURRENT_CASE: std::sync::Mutex<String> = std::sync::Mutex::new(String::new());
+
+/// Free-running mode: a logical deadlock detector. If every worker that has not finished is asleep in the kernel
+/// (state S/D) and none of them has consumed any CPU time over `SAMPLES` consecutive samples, nobody is left
+/// to wake anybody (the crate uses no timers): the execution can never finish. Spinning hangs are not detected here.
+fn deadlock_monitor(tids: &[std::sync::atomic::AtomicU64], done: &std::sync::atomic::AtomicBool) {
+    const SAMPLES: u32 = 120;
+    let mut quiet = 0u32;
+    let mut last_cpu = u64::MAX;
+    while !done.load(Ordering::Relaxed) {
+        std::thread::park_timeout(std::time::Duration::from_millis(25));
+        if done.load(Ordering::Relaxed) {
+            return;
+        }
+        let mut all_asleep = true;
+        let mut cpu = 0u64;
+        let mut live = 0;
+        for t in tids {
+            let tid = t.load(Ordering::Relaxed);
+            if tid == 0 {
+                all_asleep = false; // not started yet
+                continue;
+            }
+            if let Ok(s) = std::fs::read_to_string(format!("/proc/self/task/{}/stat", tid)) {
+                if let Some(p) = s.rfind(')') {
+                    let f: Vec<&str> = s[p + 1..].split_whitespace().collect();
+                    // f[0] = state, f[11] = utime, f[12] = stime
+                    if f.len() > 12 {
+                        live += 1;
+                        if f[0] != "S" && f[0] != "D" {
+                            all_asleep = false;
+                        }
+                        cpu += f[11].parse::<u64>().unwrap_or(0) + f[12].parse::<u64>().unwrap_or(0);
+                    }
+                }
+            }
+        }
+        if live > 0 && all_asleep && cpu == last_cpu {
+            quiet += 1;
+        } else {
+            quiet = 0;
+        }
+        last_cpu = cpu;
+        if quiet >= SAMPLES && !done.load(Ordering::Relaxed) {
+            let case = CURRENT_CASE.lock().map(|c| c.clone()).unwrap_or_default();
+            println!(
+                "{{\"t\":\"violation\",\"rule\":\"DEADLOCK\",\"props\":[\"C09\",\"C18\"],\"kind\":\"\",\"len\":0,\"detail\":\"free-running execution: all {} unfinished threads are asleep in the kernel and have consumed no CPU time for {} consecutive samples: nobody is left to wake them\",\"case\":{}}}",
+                live,
+                SAMPLES,
+                if case.is_empty() { "{}".to_string() } else { case }
+            );
+            use std::io::Write;
+            let _ = std::io::stdout().flush();
+            std::process::exit(1);
+        }
+    }
+}
+
 pub static CLOSURE_CALLS: AtomicI64 = AtomicI64::new(0);
 pub static CLOSURE_PANIC_AT: AtomicI64 = AtomicI64::new(-1);
 
@@ -626,7 +685,11 @@ where
             let gate = AtomicUsize::new(0);
             let itr = &it;
             let gate_r = &gate;
+            let tids: Vec<std::sync::atomic::AtomicU64> = (0..n).map(|_| std::sync::atomic::AtomicU64::new(0)).collect();
+            let done = std::sync::atomic::AtomicBool::new(false);
+            let (tids_r, done_r) = (&tids, &done);
             let res: Vec<(Vec<Rec>, bool)> = std::thread::scope(|scope| {
+                let monitor = if !cfg!(miri) { Some(scope.spawn(move || deadlock_monitor(tids_r, done_r))) } else { None };
                 let hs: Vec<_> = cfg
                     .scripts
                     .iter()
@@ -634,6 +697,12 @@ where
                     .map(|(t, script)| {
                         scope.spawn(move || {
                             sched::set_thread_seed(crate::util::mix(cfg.sched_seed, t as u64 + 1));
+                            if !cfg!(miri) {
+                                if let Ok(l) = std::fs::read_link("/proc/thread-self") {
+                                    let tid = l.to_string_lossy().rsplit('/').next().and_then(|x| x.parse::<u64>().ok()).unwrap_or(0);
+                                    tids_r[t].store(tid, Ordering::Relaxed);
+                                }
+                            }
                             let mut ctx = Ctx::new(t, info);
                             // start barrier: without it one thread drains the source before the others start
                             gate_r.fetch_add(1, Ordering::Relaxed);
@@ -645,7 +714,12 @@ where
                         })
                     })
                     .collect();
-                hs.into_iter().map(|h| h.join().expect("worker must not die")).collect()
+                let r = hs.into_iter().map(|h| h.join().expect("worker must not die")).collect();
+                done_r.store(true, Ordering::Relaxed);
+                if let Some(m) = monitor {
+                    m.thread().unpark();
+                }
+                r
             });
             for (r, o) in res {
                 logs.push(r);
